@@ -153,6 +153,8 @@ impl<T: ?Sized> Mutex<T> {
     ))]
     fn sys_lock(&self) {
         loop {
+            #[cfg(aranya_core_verif)]
+            crate::verif_hook::yield_point(crate::verif_hook::SITE_CASLOCK_CAS);
             if likely!(
                 self.key
                     .compare_exchange(
@@ -181,6 +183,8 @@ impl<T: ?Sized> Mutex<T> {
         use crate::mutex::macos::futex_wait;
 
         // Fast path: the mutex is unlocked.
+        #[cfg(aranya_core_verif)]
+        crate::verif_hook::yield_point(crate::verif_hook::SITE_LOCK_CAS);
         let mut wait = match self.key.compare_exchange(
             Self::MUTEX_UNLOCKED,
             Self::MUTEX_LOCKED,
@@ -194,7 +198,11 @@ impl<T: ?Sized> Mutex<T> {
         const PASSIVE_SPIN: i32 = 5;
         loop {
             for _ in 0..PASSIVE_SPIN {
+                #[cfg(aranya_core_verif)]
+                crate::verif_hook::yield_point(crate::verif_hook::SITE_SPIN_LOAD);
                 while self.key.load(Ordering::Relaxed) == Self::MUTEX_UNLOCKED {
+                    #[cfg(aranya_core_verif)]
+                    crate::verif_hook::yield_point(crate::verif_hook::SITE_SPIN_CAS);
                     if likely!(
                         self.key
                             .compare_exchange(
@@ -207,12 +215,18 @@ impl<T: ?Sized> Mutex<T> {
                     ) {
                         return;
                     }
+                    #[cfg(aranya_core_verif)]
+                    crate::verif_hook::yield_point(crate::verif_hook::SITE_SPIN_YIELD);
                     // SAFETY: FFI call, no invariants.
                     unsafe { libc::sched_yield() };
+                    #[cfg(aranya_core_verif)]
+                    crate::verif_hook::yield_point(crate::verif_hook::SITE_SPIN_LOAD);
                 }
             }
 
             // Could not grab the lock; go to sleep.
+            #[cfg(aranya_core_verif)]
+            crate::verif_hook::yield_point(crate::verif_hook::SITE_LOCK_SWAP);
             if self.key.swap(Self::MUTEX_SLEEPING, Ordering::SeqCst) == Self::MUTEX_UNLOCKED {
                 return;
             }
@@ -227,6 +241,8 @@ impl<T: ?Sized> Mutex<T> {
         not(any(target_os = "linux", target_os = "macos"))
     ))]
     pub(crate) fn sys_unlock(&self) -> Result<(), Infallible> {
+        #[cfg(aranya_core_verif)]
+        crate::verif_hook::yield_point(crate::verif_hook::SITE_CASLOCK_UNLOCK);
         self.key.swap(Self::MUTEX_UNLOCKED, Ordering::SeqCst);
         Ok(())
     }
@@ -242,6 +258,8 @@ impl<T: ?Sized> Mutex<T> {
         #[cfg(target_os = "macos")]
         use crate::mutex::macos::futex_wake;
 
+        #[cfg(aranya_core_verif)]
+        crate::verif_hook::yield_point(crate::verif_hook::SITE_UNLOCK_SWAP);
         match self.key.swap(Self::MUTEX_UNLOCKED, Ordering::SeqCst) {
             Self::MUTEX_UNLOCKED => ::buggy::bug!("unlock of locked mutex"),
             Self::MUTEX_SLEEPING => futex_wake(&self.key, 1)?,
@@ -249,6 +267,27 @@ impl<T: ?Sized> Mutex<T> {
             _ => ::buggy::bug!("invalid mutex state"),
         }
         Ok(())
+    }
+}
+
+#[cfg(aranya_core_verif)]
+impl<T: ?Sized> Mutex<T> {
+    /// The current value of the mutex word (verification builds only).
+    pub(crate) fn verif_key(&self) -> u32 {
+        self.key.load(Ordering::SeqCst)
+    }
+
+    /// Reads the protected value without locking (verification builds only).
+    ///
+    /// # Safety
+    ///
+    /// No other thread may be writing the value.
+    pub(crate) unsafe fn verif_peek(&self) -> T
+    where
+        T: Copy,
+    {
+        // SAFETY: see the function's contract.
+        unsafe { *self.data.get() }
     }
 }
 
@@ -280,6 +319,10 @@ mod linux {
     }
 
     pub fn futex_wait(uaddr: &AtomicU32, val: u32) {
+        #[cfg(aranya_core_verif)]
+        if crate::verif_hook::futex_wait(uaddr, val) {
+            return;
+        }
         let _ = futex(
             ptr::from_ref::<AtomicU32>(uaddr),
             FUTEX_WAIT,
@@ -291,6 +334,10 @@ mod linux {
     }
 
     pub fn futex_wake(uaddr: &AtomicU32, cnt: u32) -> Result<(), Bug> {
+        #[cfg(aranya_core_verif)]
+        if crate::verif_hook::futex_wake(uaddr, cnt) {
+            return Ok(());
+        }
         futex(
             ptr::from_ref::<AtomicU32>(uaddr),
             FUTEX_WAKE,
